@@ -218,6 +218,32 @@ func schedExecutingCount(c *Ctx) *RuleResult {
 				okZero, dec = true, true
 			}
 		}
+		// third form: remaining := previous - 1; m[k] = remaining; if remaining == 0 { delete }
+		if !dec || !okZero {
+			for _, g := range flattenGuards(GuardsOf(info, u.Decl.Body, del)) {
+				be, ok := ast.Unparen(g.Cond).(*ast.BinaryExpr)
+				if !ok || !g.Pos || (be.Op != token.EQL && be.Op != token.LEQ) || exprStr(be.Y) != "0" {
+					continue
+				}
+				rid, ok := ast.Unparen(be.X).(*ast.Ident)
+				if !ok {
+					continue
+				}
+				sub, ok := ast.Unparen(resolveLocalAlias(u, rid)).(*ast.BinaryExpr)
+				if !ok || sub.Op != token.SUB || exprStr(sub.Y) != "1" {
+					continue
+				}
+				ix, ok := ast.Unparen(resolveLocalAlias(u, sub.X)).(*ast.IndexExpr)
+				if !ok || fieldOf(info, ix.X) != ew || exprStr(ix.Index) != key {
+					continue
+				}
+				for _, w2 := range FieldWrites([]*FuncUnit{u}, ew, false) {
+					if w2.RHS != nil && exprStr(w2.RHS) == rid.Name && w2.Node.Pos() < del.Pos() {
+						okZero, dec = true, true
+					}
+				}
+			}
+		}
 		if okZero && dec {
 			r.ok(construct, posOf(p, del), "deleted only when the decremented count reached zero")
 		} else {
